@@ -40,6 +40,16 @@ CLAIMED = {
             "Every proof (real ones with tape-chosen prover randomness; forged ones assembled from small multiples of the generators with 1..31 leading zero bytes, incl. (1,2)) is encoded by the repository, decoded by our own decoder and compared coordinate by coordinate with gnark's proof struct in the order A.x A.y B.x1 B.x0 B.y1 B.y0 C.x C.y, decoded by the repository and compared with the original, and verified before and after. Found the left-aligned-copy defect on the pinned tree (fixed, see KNOWN_FINDINGS). Proofs crossing the simulated HTTP wire are additionally decoded under C09/C13.",
             "Trusted: gnark-crypto point arithmetic; reflection over gnark's internal proof struct for ground truth; EVM order from the property text.",
             "6.C10"),
+    "C11": ("exploration",
+            SIM + "nodes A/B/C over a simulated disk (in-memory files, sparse short reads, real files): write in either format, convert, reload, byte-identical re-serialisation and cross prove/verify between original and reloaded systems; independent seeded setups per worker",
+            "World O, library level: node A (a real proving system; an independent seeded setup and different dimensions per worker, depth != batch) writes compressed and raw files through the simulated disk; node B reloads through a plain reader, a reader with sparse legal short reads (incl. bufio's 4 MiB refill pattern) or ReadSystemFromFile on a real file; node C converts compressed to raw, which must be byte-identical to A's raw file. The reloaded system must report A's dimensions, re-serialise byte-identically in a tape-chosen format, prove a fresh valid batch that A verifies, verify a proof A made, reject a wrong hash and still reject a proof of the other mode's system. The CLI pass (setup -> prove / verify through real files) runs under C19.",
+            "Trusted: gnark's own key / constraint-system codecs below the repository's framing; seeded sampling of setups.",
+            "6.C11"),
+    "C12": ("exploration",
+            SIM + "three construction paths as nodes (setup, import with exported keys, R1CS) in-process and as fresh `gnark-mbu r1cs` processes under tape-chosen GOMAXPROCS; SHA-256 of the serialised constraint system compared across all; SAMPLED, not controlled (stated limit)",
+            "World O, process level: per run one (mode, depth, batch): two in-process compilations, 2..3 fresh CLI processes with GOMAXPROCS in {1,2,4,16}, the setup path and the import path (with A's exported pk/vk) must all serialise to the same bytes; the imported system proves a fresh valid batch that A's verifying key accepts; the public witness has exactly one element that follows the input hash alone; deletion at depth >= 32 is refused by BuildR1CS, Setup, Import and by `gnark-mbu setup` / `r1cs` (non-zero exit, no output file) while depth 31 still compiles. Limit, stated plainly: map-iteration order and OS scheduling of separate processes are behind no seam, so this nondeterminism is sampled (>= 5 compilations over >= 3 processes per configuration) rather than owned by the scheduler; a difference replays by class.",
+            "Trusted: SHA-256; gnark serialisation as the observation of the constraint system.",
+            "6.C12"),
     "C13": ("exploration",
             SIM + "2..5 overlapping prove requests on one shared ProvingSystem; every hand-over between handler goroutines is a tape decision at statement granularity of the repository's code (uniform, sticky, PCT, starve-one); per-request oracle",
             "World S: at least two valid requests with distinct input hashes plus unsatisfiable, mis-shaped, malformed and non-POST ones overlap on one real server; handler goroutines are parked at the inserted yield points (about 60 on the request path incl. JSON decoding, shape validation, witness assembly, error mapping) and released one at a time by the tape, so orders such as 'A decoded its body, B decodes, A proves' are produced on purpose, replayed and shrunk. Each response is judged against its own request only (status, error code, proof verifying for its own hash), and two different requests must not receive the same proof. Coverage is measured as context switches actually taken (site of X -> next site of Y). The data-race clause is not decidable under a serialising scheduler (hand-overs create happens-before edges); it is not claimed by this check yet.",
@@ -47,14 +57,24 @@ CLAIMED = {
             "6.C13"),
     "C14": ("fault_enumeration",
             SIM + "the real server.Run / RunningJob / net/http Shutdown inside a synctest bubble over a simulated network; the stop request is a scheduler action enumerated over every step of the bare start/stop schedule x starved task, and seeded (uniform, sticky, PCT, starve-one) with requests in flight; restart cycles on the same addresses",
-            "World S: the instrumented copy of the current tree (a yield before every statement of server/, wrapped_http/, logging/, prover/ request-path code; ListenAndServe split into its library steps pre-check / bind / yield / Serve over simnet) runs in a synctest bubble. Runs 0..1199 enumerate the stop position (every scheduler step 0..119) times the starved task (0..8, plus first-enabled) of the bare start/stop; further runs place stop by tape, incl. relative to a request's arrival so that it lands while handlers are parked mid-proof, over up to 3 start/stop cycles. Oracle: when AwaitStop returns both addresses bind at once; stop/await never get stuck (nothing enabled and 14 s of fake time change nothing); every request whose header block had been taken up by the server when stop was requested receives its complete, correct response (own decoder + Groth16 verify); no goroutine is left blocked at the end of the bubble. Found the bind->serve window defect on the pinned tree (fixed, see KNOWN_FINDINGS). The SIGINT / exit-status clause of the property (a real process) is not covered by this check yet.",
+            "World S: the instrumented copy of the current tree (a yield before every statement of server/, wrapped_http/, logging/, prover/ request-path code; ListenAndServe split into its library steps pre-check / bind / yield / Serve over simnet) runs in a synctest bubble. Runs 0..1199 enumerate the stop position (every scheduler step 0..119) times the starved task (0..8, plus first-enabled) of the bare start/stop; further runs place stop by tape, incl. relative to a request's arrival so that it lands while handlers are parked mid-proof, over up to 3 start/stop cycles. Oracle: when AwaitStop returns both addresses bind at once; stop/await never get stuck (nothing enabled and 14 s of fake time change nothing); every request whose header block had been taken up by the server when stop was requested receives its complete, correct response (own decoder + Groth16 verify); no goroutine is left blocked at the end of the bubble. Found the bind->serve window defect on the pinned tree (fixed, see KNOWN_FINDINGS). The SIGINT / exit-status clause runs as four extra runs of the same check at process level: `gnark-mbu start` (built from the current tree) on loopback ports, 1..2 valid requests, SIGINT once the in-flight gauge shows a request inside the handler, then: complete 200 with a verifying proof, exit status 0, both ports bindable at once (real sockets, uncontrolled schedule, timing-independent assertions).",
             "Trusted: testing/synctest quiescence and fake clock (go1.26.8); simnet's model of bind/accept/close; yields only in repository code (library code between two yields is atomic).",
             "6.C14"),
+    "C19": ("exploration",
+            SIM + "command histories of fresh gnark-mbu processes (seeded crypto/rand via the tag-guarded hook) over shared files with faults between steps; reference verdict from an independent decoder, the contract hash and gnark's verifier under the file's verifying key",
+            "World O, process level: per worker `gnark-mbu setup` makes an insertion and a deletion keys file (dimensions chosen so that gen-test-params roots have a leading zero byte on half of the workers); per run 5..10 commands: gen-test-params (stdout exactly one JSON line whose batch is provable), prove (exit 0 iff provable under the keys, stdout exactly one proof JSON + newline and nothing on failure), verify (exit 0 iff the reference verdict says valid), with faults: tampered / reordered / truncated proof JSON, neighbouring, foreign, non-numeric hashes and hash+r, keys of the other mode, absent / misspelt / mismatching --mode, missing and truncated keys files, invalid and truncated parameters. A known-but-mismatching mode is not pinned by the property beyond 'success implies a proof valid under the keys' and is asserted as such.",
+            "Trusted: the repository's file reader for loading the reference verifying key; kernel scheduling of processes is uncontrolled (assertions are on exit status and stdout only).",
+            "6.C19"),
     "C20": ("exploration",
             SIM + "conservation law over seeded concurrent request mixes with metrics scrapes scheduled as ordinary actions (also while handlers are parked mid-proof); final equality against the simulator's tally, mid-run bounds",
             "World S: 2..7 requests of all kinds and methods overlap under tape-chosen scheduling; 1..2 scrapes of the separate metrics address are scheduled like any other client action and a final scrape follows the last response. Final: http_requests_total{endpoint_pattern=\"/prove\"} per (method label, code) equals the simulator's tally of responses sent, nothing is reported that was never sent, the sum equals the number of requests, the in-flight gauge exists and is 0. Mid-run: the scrape succeeds while k handlers are parked, and each total lies between responses already received and requests begun. Fault-injecting configurations (clients leaving before the response) are separate from fault-free ones and only widen the tally by an explicit slack.",
             "Trusted: Prometheus text exposition parsing; client_golang's documented method-label spelling.",
             "6.C20"),
+    "C15": ("fault_enumeration",
+            SIM + "crash points of the write of a real proving-system file enumerated over a simulated disk (crash after k bytes / ENOSPC at k), both formats; prefix read back through three reader styles; error / no panic / no hang oracle",
+            "World O: the real WriteTo / WriteRawTo run through a simulated disk that crashes after k bytes (only the prefix survives) or reports ENOSPC at k (the write must report it). Run indices enumerate, for both formats, every offset of the 8-byte header, the first 256 bytes of and +-4 around each section (pk | vk | constraint system, boundaries found by a counting writer), a window of Write-call boundaries (array boundaries inside the keys) and the last 6 bytes; further runs draw uniform offsets. Each prefix is read by UnsafeReadFrom from memory, through a reader with legal short reads, or by ReadSystemFromFile from a real prefix file: the result must be an error, never a panic, never a system, within a watchdog. The CLI consequence (prove on a truncated keys file exits non-zero) is exercised under C19.",
+            "Trusted: truncation-to-prefix as the crash model (what the property quantifies over); quick tier covers a shuffled initial segment of the enumeration, thorough all of it.",
+            "6.C15"),
     "C18": ("exploration",
             "deterministic simulation: seeded update histories of the real off-chain tree in lock-step with a reference leaf-array model; tape shrinking + fresh-process replay",
             "Seeded histories (1..200 updates, depths 1..32, overwrites, zero writes, extreme and neighbouring indices, aliasing probes on earlier returned paths) drive the real PoseidonTree in lock-step with an independent sparse leaf-array model; root, returned path (old value/old root, new value/new root), sibling equality and read-back of untouched leaves are compared after every step. Exploration is the right level: the property quantifies over histories, and a model-based seeded search with shrinking covers far more histories than the suite's zero.",
